@@ -25,6 +25,7 @@ import GraphiqModel.Proofs.HilbertDimProg
 import GraphiqModel.Proofs.HilbertDimAdjoint
 import GraphiqModel.Proofs.HilbertDimCPTP
 import GraphiqModel.Proofs.HilbertDimExpect
+import GraphiqModel.Proofs.HilbertDimOverlap
 namespace Graphiq.C07
 open Graphiq Graphiq.PRow Graphiq.Tab
 
@@ -1426,5 +1427,45 @@ example : rho 2 (STab.ofTab (Tab.ket0 2)) * rho 2 (STab.ofTab (Tab.ket1 2)) = 0 
   (stabilizer_state_determines_group 2 (Tab.ket0 2) (Tab.ket1 2) rfl rfl (ket0_is_valid 2) (ket0_stabReal 2)
     ((isSymplectic_iff_valid _).mp (by decide)) (stabRealB_spec _ (by decide))).2 (Zq 0)
     (grp_gen (Tab.ket0 2) 0 (by decide)) (grp_gen (Tab.ket1 2) 0 (by decide))
+
+/-- **The overlap of two stabilizer states** (the bridge "group-level overlap = `|⟨a|b⟩|²`" that the fidelity theorems of C05
+    cite).  `A`, `B` the stabilizer halves of two valid tableaux on `n` qubits:
+    * `Orth A B` (some `P ∈ A` with `−P ∈ B`) ⇒ `tr(ρ_a ρ_b) = 0`;
+    * otherwise `tr(ρ_a ρ_b) = commonCount A B / 2^n` — the brute-force executable specification of
+      `Model/OverlapSpec.lean` (the quantity the C05 harness compares with graphiq's `fidelity`) is the Hilbert-space overlap;
+    * otherwise, with `d` the rank of the common subgroup (`OverlapDim`, the `n − e` of `inner_product_exponent_partial`):
+      `d ≤ n` and `tr(ρ_a ρ_b) = 2^{-(n-d)}`;
+    * for kets `ρ_a = |ψ⟩⟨ψ|`, `ρ_b = |φ⟩⟨φ|` (which exist, `stabilizer_state_is_ket`): `tr(ρ_a ρ_b) = |⟨ψ|φ⟩|²`. -/
+theorem stabilizer_state_overlap (a b : Tab) (hn : a.n = b.n) (va : a.Valid) (ra : a.StabReal) (vb : b.Valid)
+    (rb : b.StabReal) :
+    (STab.Orth (STab.ofTab a) (STab.ofTab b) → Matrix.trace (rho b.n (STab.ofTab a) * rho b.n (STab.ofTab b)) = 0) ∧
+    (¬ STab.Orth (STab.ofTab a) (STab.ofTab b) →
+      Matrix.trace (rho b.n (STab.ofTab a) * rho b.n (STab.ofTab b))
+        = ((STab.ofTab a).commonCount (STab.ofTab b) : ℂ) / 2 ^ b.n) ∧
+    (∀ d, ¬ STab.Orth (STab.ofTab a) (STab.ofTab b) → STab.OverlapDim (STab.ofTab a) (STab.ofTab b) d →
+      d ≤ b.n ∧ Matrix.trace (rho b.n (STab.ofTab a) * rho b.n (STab.ofTab b)) = (1 / 2 : ℂ) ^ (b.n - d)) ∧
+    (∀ ψ φ : Bits b.n → ℂ, rho b.n (STab.ofTab a) = Matrix.vecMulVec ψ (star ψ) →
+      rho b.n (STab.ofTab b) = Matrix.vecMulVec φ (star φ) →
+      Matrix.trace (rho b.n (STab.ofTab a) * rho b.n (STab.ofTab b)) = ((Complex.normSq (star ψ ⬝ᵥ φ) : ℝ) : ℂ)) :=
+  ⟨(stabilizer_overlap a b hn va ra vb rb).1, (stabilizer_overlap a b hn va ra vb rb).2,
+   fun d hno hd => stabilizer_overlap_dim a b hn va ra vb rb d hno hd,
+   fun ψ φ h1 h2 => by rw [h1, h2]; exact trace_ket_overlap ψ φ⟩
+
+/-- the product-of-projectors form of the state is the normalised sum over the stabilizer group:
+    `∏_{i<k} (1 + P_i)/2 = 2^{-k} Σ_{S ⊆ {0..k-1}} ∏_{i∈S} P_i` for commuting real generators -/
+theorem stabilizer_state_is_group_average (t : Tab) (hv : t.Valid) :
+    rho t.n (STab.ofTab t)
+      = (1 / 2 : ℂ) ^ t.n • ∑ m ∈ Finset.range (2 ^ t.n), pauliMat t.n (STab.mprod t.n (STab.ofTab t).row m t.n) :=
+  rhoTo_mask_sum t.n _ t.n (ofTab_good t hv).goodTo
+
+/-- Bell pair vs `|00⟩`: not orthogonal, common subgroup `{1, ZZ}` of rank 1, overlap `2^{-(2-1)} = ½` -/
+example : Matrix.trace (rho 2 (STab.ofTab bell) * rho 2 (STab.ofTab (Tab.ket0 2)))
+    = ((STab.ofTab bell).commonCount (STab.ofTab (Tab.ket0 2)) : ℂ) / 2 ^ 2 ∧
+    (STab.ofTab bell).commonCount (STab.ofTab (Tab.ket0 2)) = 2 := by
+  have hno : ¬ STab.Orth (STab.ofTab bell) (STab.ofTab (Tab.ket0 2)) := by
+    rw [← STab.orthB_iff _ _ (ofTab_good bell bell_valid) (ofTab_good _ (ket0_is_valid 2)) rfl]
+    decide
+  exact ⟨(stabilizer_state_overlap bell (Tab.ket0 2) rfl bell_valid bell_real (ket0_is_valid 2) (ket0_stabReal 2)).2.1 hno,
+    by decide⟩
 
 end Graphiq.C07
